@@ -599,6 +599,23 @@ func whyKind(why string) string {
 
 // Check18 evaluates the C18 oracle on one case. It returns the violations found (at most one).
 func Check18(c *Case, env *Env) []verdict {
+	vs := check18(c, env)
+	if len(c.Env) == 0 {
+		return vs
+	}
+	// Under environment variables the tree chose to read, only crashes are judged: a variable may legitimately make the
+	// tree refuse earlier and in other words (a size limit, a strict mode); WHICH error a file gets is decided in the
+	// variable-free configuration, which three cases in four run in.
+	var out []verdict
+	for _, v := range vs {
+		if strings.Contains(v.sig, "panic") {
+			out = append(out, v)
+		}
+	}
+	return out
+}
+
+func check18(c *Case, env *Env) []verdict {
 	defer evid.ApplyEnv(c.Env)()
 	tick(c, 0)
 	m, o := load(c, env)
@@ -830,7 +847,8 @@ func Check12(c *Case, env *Env) []verdict {
 		return nil
 	}
 	if o.kind == "error" {
-		if nUnspec != 0 {
+		if nUnspec != 0 || len(c.Env) != 0 {
+			// (under environment variables the tree reads, a refusal may be what the variable asks for)
 			return nil
 		}
 		// Refused although every initializer is well-formed. C12 only objects if the refusal is about a WEIGHT: a
